@@ -474,6 +474,9 @@ def module_function_lookup(ctx, mod, extra, skip=()):
             return True, (lambda *a, **k: MI.call_function(f.node, list(a), extra, k))
         v = ctx.try_fold(ast.Name(id=name, ctx=ast.Load()), mod)
         if v is not None:
+            if type(v).__name__ == "_Helper":
+                # a helper of the constant folder (BYTES_LITERAL, Struct, dict, ...): callable with ordinary arguments here
+                return True, (lambda *a, _h=v, **k: _h(list(a), k))
             return True, v
         # a module-level value that is not a foldable constant (`_BY_TIMESTAMP = itemgetter(1)`, a sentinel `object()`):
         # evaluated once by the interpreter itself
